@@ -295,7 +295,7 @@ class Exec:
 
 # HTTP/2 client, HTTP/1 upstream: several concurrent streams, which share one pending connection attempt (the
 # "HTTP/2 client, non-h2 upstream" branch of HttpLayer.register_connection) and then get one connection each
-H2_BASES = {"h2-2": 2, "h2-3": 3}
+H2_BASES = {"h2-2": 2, "h2-3": 3, "h2-post": 1, "h2-post-get": 2}  # h2-post*: the first stream is a POST whose body follows later
 R_SMALL = R_CL_H + b"abcdef"
 
 
@@ -320,12 +320,14 @@ class H2Exec(Exec):
             acts.append(("connect_fail",))
         if not w.client.r.eof:
             acts.append(("client_eof",))
+            if not self.goaway:
+                acts.append(("client_goaway",))  # protocol-level goodbye (GOAWAY frame), the socket stays open
         openers = [e for e in w.servers if e.state == "open" and not e.r.eof]
         if openers:
             acts.append(("server_eof",))
         if len(w.suspended) > 1:
             acts.append(("hook", 1))
-        if acts and acts[0][0] in ("connect_fail", "client_eof", "server_eof"):
+        if acts and acts[0][0] in ("connect_fail", "client_eof", "client_goaway", "server_eof"):
             return [], None
         return acts, tgt
 
@@ -334,7 +336,10 @@ class H2Exec(Exec):
 
         hw = H2World(http_mode="regular", policy=make_policy(self.pol), suspend=make_suspend(self.susp), snap=h1.http_snap)
         w = hw.w
-        tosend = [b"/s%d" % i for i in range(H2_BASES[self.base])]
+        tosend = [(b"GET", b"/s%d" % i, True) for i in range(H2_BASES[self.base])]
+        if self.base.startswith("h2-post"):
+            tosend[0] = (b"POST", b"/p", False)
+        self.goaway = False
         choices, widths, costs, trace = [], [], [], []
         try:
             hw.start()
@@ -354,7 +359,18 @@ class H2Exec(Exec):
                     a = acts[0]
                 trace.append(a)
                 if a[0] == "request":
-                    hw.request([(b":method", b"GET"), (b":scheme", b"http"), (b":authority", b"example.com"), (b":path", tosend.pop(0))], end=True)
+                    meth, path, end = tosend.pop(0)
+                    if meth == b"body":
+                        hw.data(path, b"abcdef", end=True)
+                    else:
+                        sid = hw.request([(b":method", meth), (b":scheme", b"http"), (b":authority", b"example.com"), (b":path", path)], end=end)
+                        if not end:
+                            tosend.append((b"body", sid, True))  # after the other streams have been opened
+                elif a[0] == "client_goaway":
+                    self.goaway = True
+                    del tosend[:]
+                    hw.peer.conn.close_connection()
+                    hw.send(hw.peer.conn.data_to_send())
                 elif a[0] == "respond":
                     tgt.answered = 1
                     w.server_send(tgt, R_SMALL)
